@@ -451,6 +451,8 @@ func (m *GoModel) parseService(info *types.Info, b *ast.BlockStmt) {
 			case onS && se.Sel.Name == "SetField":
 				name, _ := load.StringOf(info, call.Args[0])
 				svc.Fields = append(svc.Fields, Field{Name: name, Val: m.parseDep(info, call.Args[1])})
+			case onS && (se.Sel.Name == "AppendCall" || se.Sel.Name == "AppendWither") && len(call.Args) == 0:
+				m.problem(call.Pos(), "%s without a method name", se.Sel.Name)
 			case onS && (se.Sel.Name == "AppendCall" || se.Sel.Name == "AppendWither"):
 				name, _ := load.StringOf(info, call.Args[0])
 				c := Call{Method: name, Immutable: se.Sel.Name == "AppendWither"}
